@@ -137,7 +137,8 @@ func (c *Concretiser) RenderToks(toks []any) string {
 				big := []string{"65536", "70000", "4294967296", "9223372036854775807", "9223372036854775808", "18446744073709551616", "99999999999999999999999999"}
 				sb.WriteString("$" + big[c.Rng.Intn(len(big))])
 			} else {
-				sb.WriteString(fmt.Sprintf("$%d", n))
+				// the same index may be written with leading zeros
+				sb.WriteString("$" + strings.Repeat("0", []int{0, 0, 0, 1, 3, 6}[c.Rng.Intn(6)]) + fmt.Sprint(n))
 			}
 		}
 		sb.WriteString(" ")
